@@ -104,6 +104,30 @@ def check(run, model, tier):
         for c_ in n_.calls():
             if isinstance(c_.func, ast.Attribute) and c_.func.attr == 'acquire':
                 lockattr = (dotted(c_.func.value) or '').split('.')[-1]
+    if flag:
+        # the hand-over itself: a __get__ that keeps the lock must leave the flag False (so that the __set__ of the same statement does not acquire again), and one that
+        # releases must not: each side of the classifier test is judged on every path to the exit
+        selfn_ = get.params[0]
+        run.rule('PROTO.handover', 'on the keep-lock branch of __get__ the hand-over flag is set False on every path, on the releasing branch never; __set__ acquires exactly when the flag is True')
+        fwrites = [n_ for n_ in g.nodes if n_.kind == 'stmt' and isinstance(n_.ast, ast.Assign) and any(dotted(t_) == '%s.%s' % (selfn_, flag) for t_ in n_.ast.targets)]
+        wf = [n_ for n_ in fwrites if isinstance(n_.ast.value, ast.Constant) and n_.ast.value.value is False]
+        wt = [n_ for n_ in fwrites if isinstance(n_.ast.value, ast.Constant) and n_.ast.value.value is True]
+        for lab in ('true', 'false'):
+            for m in [m_ for m_, l_ in g.succ[ctest] if l_ == lab]:
+                cf = g.count_on_paths(lambda n_: 1 if n_ in wf else 0, start=m, end=g.exit)
+                ct = g.count_on_paths(lambda n_: 1 if n_ in wt else 0, start=m, end=g.exit)
+                if cf is None:
+                    continue
+                if lab == keep_label:
+                    ok_ = cf[0] >= 1 and ct == (0, 0)
+                    why_ = ('__get__ keeps the lock for the write half of an augmented assignment but does not leave the hand-over flag False on every such path (False writes %s, True '
+                            'writes %s): the __set__ of the same statement acquires the lock a second time and releases it once, so the statement ends with the lock still held' % (cf, ct))
+                else:
+                    ok_ = cf == (0, 0)
+                    why_ = ('__get__ releases the lock but leaves the hand-over flag False (False writes %s): the next plain assignment skips its acquire and releases a lock it does '
+                            'not hold' % (cf,))
+                run.inst('PROTO.handover', get, '%s branch of %s: flag left %s' % (lab, norm(ctest.ast), 'False' if lab == keep_label else 'True'), ok_, '' if ok_ else why_,
+                         node=ctest.ast, obligation=True)
     if flag and lockattr:
         selfn = get.params[0]
         acq = set(lock_nodes(g, selfn, lockattr, 'acquire'))
